@@ -96,7 +96,13 @@ def longest_first_rule(F, rep):
             if p.endswith("::contains") and ("HashSet" in p or "BTreeSet" in p or "slice" in p or "Vec" in p) and len(c["args"]) == 2 and roots(c["args"][0]) & keysets:
                 tests.append((d, bi, c))
         if not tests:
-            rep.undecided(rid, key, "%s consults Scope::flatten_keys but no membership test on the key set was found" % n)
+            r = closure_search_form(F, b, defs, calls, keysets, roots)
+            if r is None:
+                rep.undecided(rid, key, "%s consults Scope::flatten_keys but no membership test on the key set was found" % n)
+            elif r[0] == "ok":
+                rep.ok(rid, key, r[1])
+            else:
+                rep.violation(rid, key + (":" + r[2] if len(r) > 2 else ""), "%s %s" % (n, r[1]), where)
             continue
         for d, bi, c in tests:
             # the tested name: backward slice to the range / take bound of the prefix
@@ -119,6 +125,87 @@ def longest_first_rule(F, rep):
                     rep.ok(rid, key, "prefix length `%s`: %s; the first hit returns%s" % (nm, why, "; position restored from the same length" if pos_ok else ""))
             else:
                 rep.undecided(rid, key, "prefix length `%s`: direction %s (%s), first hit %s" % (nm, direction, why, "returns" if hit_returns else "does not return"))
+
+
+def closure_search_form(F, b, defs, calls, keysets, roots):
+    """the scan written as a search over a range of prefix lengths: `(lo..=hi).rev().find(|&k| keys.contains(&name_of(&parts[..k])))`.  The first item for which the
+    closure answers true is the result, so the order of the range is the order of the candidates: with `rev()` the longest comes first; the upper end must be the number
+    of collected parts, *included* - `1..parts.len()` never tries the candidate made of all parts.  None when the body has no such search."""
+    for d, (bi, c) in calls.items():
+        p = c["f"].get("o") or c["f"].get("p") or ""
+        if not re.search(r"Iterator::(find|position|find_map)$", p) or len(c["args"]) != 2:
+            continue
+        # the closure: holds the test against the key set
+        clos = set()
+        for l in roots(c["args"][1]):
+            for _, rv in defs.get(l, []):
+                if rv[0] == "Agg" and isinstance(rv[1], list) and rv[1][0] == "closure":
+                    clos.add((rv[1][1], tuple(x[1][0] for x in rv[2] if x[0] in ("C", "M"))))
+        ok_clo = False
+        for cn, caps in clos:
+            cb = F.bodies.get(cn)
+            if cb is None:
+                continue
+            has_test = any(bl["t"][0] == "call" and (bl["t"][1]["f"].get("p") or "").endswith("::contains") for bl in cb["blocks"])
+            captures_keys = any(roots(["C", [x]]) & keysets for x in caps)
+            if has_test and captures_keys:
+                ok_clo = True
+        if not ok_clo:
+            continue
+        # the receiver chain
+        rev = False
+        cur = c["args"][0]
+        lo = hi = None
+        inclusive = None
+        for _ in range(8):
+            if cur[0] not in ("C", "M"):
+                break
+            l = cur[1][0]
+            if l in calls:
+                cc = calls[l][1]
+                q = cc["f"].get("o") or cc["f"].get("p") or ""
+                if q.endswith("Iterator::rev"):
+                    rev = not rev
+                    cur = cc["args"][0]
+                    continue
+                if re.search(r"RangeInclusive::<.*>::new$|RangeInclusive<.*>::new$", q) and len(cc["args"]) == 2:
+                    lo, hi, inclusive = cc["args"][0], cc["args"][1], True
+                    break
+                if q.endswith("IntoIterator::into_iter") or q.endswith("::by_ref") or q.endswith("::peekable"):
+                    cur = cc["args"][0]
+                    continue
+                break
+            nxt = None
+            for _, rv in defs.get(l, []):
+                if rv[0] == "Use":
+                    nxt = rv[1]
+                elif rv[0] == "Ref":
+                    nxt = ["C", rv[2]]
+                elif rv[0] == "Agg" and isinstance(rv[1], list) and rv[1][0] == "adt" and re.search(r"ops::range::Range$", rv[1][1]) and len(rv[2]) == 2:
+                    lo, hi, inclusive = rv[2][0], rv[2][1], False
+            if lo is not None or nxt is None:
+                break
+            cur = nxt
+        if hi is None:
+            continue
+
+        def is_len(op, plus=0):
+            """(is a collection length, constant added)"""
+            if op[0] not in ("C", "M"):
+                return None
+            for l in roots(op):
+                if l in calls and (calls[l][1]["f"].get("p") or "").endswith("::len"):
+                    return True
+            return False
+        if not is_len(hi):
+            return None
+        if not rev:
+            return ("bad", "searches the candidate prefix lengths in ascending order and takes the first hit: the shortest bound name is chosen instead of the longest", "ascending")
+        if not inclusive:
+            return ("bad", "searches the prefix lengths of a half-open range that ends before the number of collected parts: the candidate made of all parts is never tried, "
+                           "so the longest bound name is not found when a shorter one is bound as well", "full-length")
+        return ("ok", "prefix lengths searched from the number of parts downwards (inclusive range reversed), the first hit is the result")
+    return None
 
 
 def prefix_bound(b, defs, calls, op, roots, depth=0):
